@@ -56,7 +56,6 @@ KEY_TIMED = "cond_timedwait_timeout_wraps"
 # wraps), "timedfix" = the saturating variant of notes/C20_fix_timedwait.diff.  Switch the default
 # together with the fix commit (VERIF_C20_TIMED=timedfix tries it without editing).
 TIMED_MODE = os.environ.get("VERIF_C20_TIMED", "timedfix")
-KEY_STACK = "stack_size_rounding_wraps"
 
 
 def corpus(name):
@@ -118,7 +117,8 @@ def stack_cases(rng, page, psm, thorough):
     fixed = [0, 1, 4095, 4096, 4097, 8191, 8192, 8193, 16383, 16384, 16385, 1048577, 67108864,
              U64 - 1, U64 - 4095, U64 - 4096, U64 - 4097, U64 - 65536, U64 - 65535, 2**63, 2**32 + 1]
     for pg in sorted(set(pages)):
-        for s in fixed:
+        # boundary of the guard "stack_size > SIZE_MAX - (pagesize - 1)" for this page size
+        for s in fixed + [U64 - pg - 1, U64 - pg, U64 - pg + 1, U64 - pg + 2, U64 - 2, U64 - 1]:
             out.append("st %d %d %s 1 %d" % (pg, psm, "8388608", s))
         out.append("st %d %d %s 0 %d" % (pg, psm, "8388608", 12345))
     for rl in rls:
@@ -158,6 +158,8 @@ def stack_monitor(case, line):
     if len(f) != 4:
         return "thread creation ended with %s" % line
     flag, req = int(t[4]), int(t[5])
+    if f[0] == "einval":          # refused before anything was set up
+        return None if f[1] == "-22" and f[2] == "0" else "refused request but %s" % line
     applied, rc, ran, seen = int(f[0]), int(f[1]), int(f[2]), f[3]
     if rc == 0 and ran != 1:
         return "uv_thread_create_ex returned 0 but the entry function ran %d times" % ran
@@ -218,11 +220,6 @@ def timed_monitor(case, line):
 def timed_known(case, line, reason):
     s, n, to, mode = case.split()
     return KEY_TIMED if int(to) + int(s) * NS + int(n) >= U64 else None
-
-
-def stack_known(case, line, reason):
-    t = case.split()
-    return KEY_STACK if "requested" in reason and int(t[5]) > U64 - int(t[1]) else None
 
 
 # ------------------------------------------------------------------ schedules
@@ -454,8 +451,9 @@ def main():
     if len(a) == len(b) == len(sc):
         b = [m + (" " + " ".join(x.split()[1:]) if c.startswith("st") and len(x.split()) == 4 else "")
              for c, x, m in zip(sc, a, b)]
-    diff_known(chk, "uv_thread_create_ex stack size = Model/Thread.v part B", sc, a, b,
-               stack_monitor, stack_known)
+    # (the wrap within a page of 2^64, DESIGN item 16, was repaired in /repo 4452eb2: a thread running
+    # on less than it asked for is a violation like any other)
+    vf.diff_cases(chk, "uv_thread_create_ex stack size = Model/Thread.v part B", sc, a, b, stack_monitor)
     chk.sample({"stack_case": sc[3], "impl(applied rc ran seen-in-thread)": a[3] if len(a) > 3 else None})
 
     # (c) timed wait deadline
